@@ -58,7 +58,9 @@ def run(case, out):
         ref = GC.ref_of(g)
         out.shape = GC.shape_digest(g)
         out.fault("value_hash" if g.get("hash") else "hashseed_only")
-        want = {tuple(k.split(":", 1)[1] for k in w) for w in ref.words_upto(N)}
+        # exact comparison: the PDA must read the grammar's own terminal values (not their printed form)
+        canon = {GC.key(GC.val(g, t)): GP._k(GC.val(g, t)) for t in g["terms"]}
+        want = {tuple(canon[k] for k in w) for w in ref.words_upto(N)}
         out.nontrivial = len(want) >= 2
         cfg = GC.build(g)
         out.sig = GC.signature(cfg)
@@ -73,7 +75,7 @@ def run(case, out):
         back = out.call("cfg.to_pda.to_cfg", pda.to_cfg)
         if back is not FAILED:
             rb = GC.extract(back)
-            got = {tuple(k.split(":", 1)[1] for k in w) for w in rb.words_upto(N)}
+            got = {tuple(canon.get(k, k) for k in w) for w in rb.words_upto(N)}
             _diff(out, "cfg.to_pda.to_cfg:language", got, want)
         out.probe("cfg_source")
         if g.get("alias"):
